@@ -698,7 +698,7 @@ def old_state_strategy_rule(P, rep, rid):
     classification loop is interpreted (E10) for one entry over state x is_bad x past hash kind."""
     from .. import region as RG
     from .C06 import blk_value
-    rep.rule(rid, 'repair, old-state strategy: a CHG block with the ZERO past hash is zero-filled and not counted among the blocks to reconstruct, whether or not it is readable; a readable BLK block is not counted; every other changed block is counted or fetched', 10)
+    rep.rule(rid, 'repair, old-state strategy: a CHG block with the ZERO past hash is zero-filled and not counted among the blocks to reconstruct, whether or not it is readable; a readable BLK block is not counted; every other changed block is counted or fetched -- for hash sizes 16, 8 and 2', 30)
     f = P.fn('repair')
     rep.analysed(f)
     st = dict(blk_value(P))
@@ -723,53 +723,54 @@ def old_state_strategy_rule(P, rep, rid):
     jj = [i for i in f.all_insts() if i.op == 'alloca' and (i.var or '') == 'j']
     if len(nn) != 1 or len(jj) != 1:
         raise AnalysisBroken('repair: locals n / j not identified')
-    for state_name in ('BLK', 'CHG', 'REP', 'DELETED'):
-        for is_bad in (0, 1):
-            for kind in (('ZERO', 'REAL') if state_name in ('CHG',) else ('REAL',)):
-                zeroed = [0]; fetched = [0]
-                def ext(ins, args):
-                    c = ins.callee or ''
-                    if c.startswith('llvm.memset'):
-                        zeroed[0] += 1
-                        return (0,)
-                    if c == 'state_import_fetch':
-                        fetched[0] += 1
-                        return (1,)          # not found
-                    if c in ('log_tag', 'log_fatal', '__assert_fail'):
-                        return (0,)
-                    return None
-                R = RG.Region(P, extern=ext)
-                R.discover = []
-                fp = RG.P_(('obj', 'failed'), 0); bp = RG.P_(('obj', 'blk'), 0); sp = RG.P_(('obj', 'state'), 0)
-                R.zero_regions.add(sp.reg)
-                R.mem[(fp.reg, fo['is_bad'])] = is_bad; R.mem[(fp.reg, fo['is_outofdate'])] = 0; R.mem[(fp.reg, fo['index'])] = 0; R.mem[(fp.reg, fo['block'])] = bp
-                R.mem[(bp.reg, bo['state'])] = st[state_name]
-                for k_ in range(16):
-                    R.mem[(bp.reg, bo['hash'] + k_)] = 0xFF if kind == 'ZERO' else (0x21 + 5 * k_) & 0xff
-                R.mem[(('glob', 'BLOCK_HASH_SIZE'), 0)] = 16
-                R.set_local(f, 'failed', fp); R.set_local(f, 'failed_count', 1); R.set_local(f, 'state', sp); R.set_local(f, 'rehash', 0)
-                R.set_local(f, 'buffer', R.array('buffer', [RG.P_(('obj', 'buf0'), 0)], 8))
-                R.set_local(f, 'failed_map', R.array('failed_map', [99, 99], 4))
-                R.mem[(R.local_by_id(f, nn[0].id).reg, 0)] = 0
-                R.mem[(R.local_by_id(f, jj[0].id).reg, 0)] = 0
-                try:
-                    R.run(f, h, stop=lambda ins: f.insts.get(ins.id) is ins and ins.block not in body and ins.block != h)
-                except RG.Stop:
-                    pass
-                except RG.Unsupported as e:
-                    raise AnalysisBroken('cannot interpret the old-state strategy of repair: %s' % e)
-                n_ = R.mem[(R.local_by_id(f, nn[0].id).reg, 0)]
-                if state_name == 'CHG' and kind == 'ZERO':
-                    ok = n_ == 0
-                    why = 'its old content is known to be zero: it must be zero-filled and cost no parity; counted as one more block to reconstruct, an adds-only interrupted sync leaves the files synced before recoverable from one device less than there are parities'
-                elif state_name == 'BLK':
-                    ok = n_ == is_bad
-                    why = 'a synced block is reconstructed iff it is bad'
-                else:
-                    ok = n_ == 1
-                    why = 'a changed block with unknown old content has to be reconstructed (or fetched)'
-                rep.check(ok, rid, '%s block, %s, past hash %s' % (state_name, 'bad' if is_bad else 'readable', kind), f.file,
-                          'counted among the blocks to reconstruct: %d' % n_ if ok else 'counted among the blocks to reconstruct: %d -- %s' % (n_, why), function='repair', construct='old-state classification')
+    for hsize in (16, 8, 2):
+        for state_name in ('BLK', 'CHG', 'REP', 'DELETED'):
+            for is_bad in (0, 1):
+                for kind in (('ZERO', 'REAL') if state_name in ('CHG',) else ('REAL',)):
+                    zeroed = [0]; fetched = [0]
+                    def ext(ins, args):
+                        c = ins.callee or ''
+                        if c.startswith('llvm.memset'):
+                            zeroed[0] += 1
+                            return (0,)
+                        if c == 'state_import_fetch':
+                            fetched[0] += 1
+                            return (1,)          # not found
+                        if c in ('log_tag', 'log_fatal', '__assert_fail'):
+                            return (0,)
+                        return None
+                    R = RG.Region(P, extern=ext)
+                    R.discover = []
+                    fp = RG.P_(('obj', 'failed'), 0); bp = RG.P_(('obj', 'blk'), 0); sp = RG.P_(('obj', 'state'), 0)
+                    R.zero_regions.add(sp.reg)
+                    R.mem[(fp.reg, fo['is_bad'])] = is_bad; R.mem[(fp.reg, fo['is_outofdate'])] = 0; R.mem[(fp.reg, fo['index'])] = 0; R.mem[(fp.reg, fo['block'])] = bp
+                    R.mem[(bp.reg, bo['state'])] = st[state_name]
+                    for k_ in range(16):
+                        R.mem[(bp.reg, bo['hash'] + k_)] = 0xFF if kind == 'ZERO' else (0x21 + 5 * k_) & 0xff
+                    R.mem[(('glob', 'BLOCK_HASH_SIZE'), 0)] = hsize
+                    R.set_local(f, 'failed', fp); R.set_local(f, 'failed_count', 1); R.set_local(f, 'state', sp); R.set_local(f, 'rehash', 0)
+                    R.set_local(f, 'buffer', R.array('buffer', [RG.P_(('obj', 'buf0'), 0)], 8))
+                    R.set_local(f, 'failed_map', R.array('failed_map', [99, 99], 4))
+                    R.mem[(R.local_by_id(f, nn[0].id).reg, 0)] = 0
+                    R.mem[(R.local_by_id(f, jj[0].id).reg, 0)] = 0
+                    try:
+                        R.run(f, h, stop=lambda ins: f.insts.get(ins.id) is ins and ins.block not in body and ins.block != h)
+                    except RG.Stop:
+                        pass
+                    except RG.Unsupported as e:
+                        raise AnalysisBroken('cannot interpret the old-state strategy of repair: %s' % e)
+                    n_ = R.mem[(R.local_by_id(f, nn[0].id).reg, 0)]
+                    if state_name == 'CHG' and kind == 'ZERO':
+                        ok = n_ == 0
+                        why = 'its old content is known to be zero: it must be zero-filled and cost no parity; counted as one more block to reconstruct, an adds-only interrupted sync leaves the files synced before recoverable from one device less than there are parities'
+                    elif state_name == 'BLK':
+                        ok = n_ == is_bad
+                        why = 'a synced block is reconstructed iff it is bad'
+                    else:
+                        ok = n_ == 1
+                        why = 'a changed block with unknown old content has to be reconstructed (or fetched)'
+                    rep.check(ok, rid, 'hashsize %d: %s block, %s, past hash %s' % (hsize, state_name, 'bad' if is_bad else 'readable', kind), f.file,
+                              'counted among the blocks to reconstruct: %d' % n_ if ok else 'counted among the blocks to reconstruct: %d -- %s' % (n_, why) + (' (hash_is_zero() answers 0 for every reduced hash: with hashsize < 16 the marker is not recognised)' if hsize != 16 else ''), function='repair', construct='old-state classification' if hsize == 16 else 'old-state classification blind for reduced hash')
 
 
 def state_case_entries(f, k):
